@@ -200,6 +200,8 @@ impl HttpStream for io::Sink {
 }
 
 fn gen_boundary() -> String {
+    #[cfg(attohttpc_verif)]
+    return attosim::rng::alphanumeric(BOUNDARY_LEN);
     rand::rng()
         .sample_iter(rand::distr::Alphanumeric)
         .take(BOUNDARY_LEN)
